@@ -123,6 +123,11 @@ def unjson(d):
     return out
 
 
+def rnd(v, eps):
+    """a Python-float static argument as the implementation sees it in the working precision"""
+    return float(np.float32(v)) if eps > 1e-10 else float(v)
+
+
 def softplus_np(x):
     x = A(x)
     return np.maximum(x, 0) + np.log1p(np.exp(-np.abs(x)))
@@ -285,7 +290,7 @@ class MinScaleKind(Kind):
         return [("scale", f"minscale.unwrap {fhex(st['ms'])} {hexlist(raws['raw'].ravel())}", lambda s: flist(s).reshape(()), 0.0)]
 
     def oracle(self, st, raws, obs, eps):
-        v, ms = obs["scale"], st["ms"]
+        v, ms = obs["scale"], rnd(st["ms"], eps)
         e = []
         if not np.all(np.isfinite(v)) or not np.all(v > 0):
             e.append("scale not finite and > 0")
@@ -330,7 +335,7 @@ class SplineKind(Kind):
 
     def oracle(self, st, raws, obs, eps):
         e = []
-        lo, hi = float(st["lo"]), float(st["hi"])
+        lo, hi = rnd(st["lo"], eps), rnd(st["hi"], eps)
         for f, r in (("x_pos", "x"), ("y_pos", "y")):
             p = obs[f]
             if p.shape != (st["K"] + 2,) or not np.all(np.isfinite(p)):
@@ -346,7 +351,7 @@ class SplineKind(Kind):
                     e.append(f"{f} not strictly increasing")
             elif not np.all(d >= -noise):  # collapsed regime (only reachable with softmax_adjust ~ 0): ordered up to rounding
                 e.append(f"{f} decreasing")
-        dv, md = obs["derivatives"], st["md"]
+        dv, md = obs["derivatives"], rnd(st["md"], eps)
         if dv.shape != (st["K"] + 2,) or not np.all(np.isfinite(dv)):
             e.append("derivatives wrong shape or non-finite")
         else:
@@ -609,9 +614,38 @@ def case_json(kind, st, raws, how):
     return dict(unit="raw-box", kind=kind.name, static=st, raws=jsonable(raws), how=how)
 
 
+def search_around(ctx, kind, st, raws):
+    """the property's own predicates on the implementation at inputs around a disagreeing case (box edges, perturbations)"""
+    rng = np.random.default_rng(12345)
+    obj0 = kind.build(st)
+    for t in range(24):
+        if t < 4:
+            cand = {n: np.clip(v * [1.0, -1.0, 50.0, -50.0][t], -50, 50) for n, v in raws.items()}
+        elif t < 8:
+            cand = {n: np.full(v.shape, [-50.0, 50.0, -30.0, 0.0][t - 4]) for n, v in raws.items()}
+        else:
+            cand = {n: np.clip(v + rng.normal(0, 10 ** rng.uniform(-3, 1.5), size=v.shape), -50, 50) for n, v in raws.items()}
+        if kind.skip(st, cand):
+            continue
+        try:
+            obs = kind.observe(kind.with_raws(obj0, cand))
+        except Exception:  # noqa: BLE001
+            continue
+        errs = kind.oracle(st, cand, obs, EPS)
+        if errs:
+            return cand, obs, errs
+    return None
+
+
 def report(ctx, unit, kind, st, raws, obs, how, bad, errs, preds=None, dtype="float64"):
     if not bad and not errs:
         return
+    if bad and not errs and dtype == "float64":
+        hit = search_around(ctx, kind, st, raws)
+        if hit:
+            raws, obs, errs = hit
+            how = how + " + search around the disagreeing case"
+            preds = None
     cj = case_json(kind, st, raws, how)
     cj["dtype"] = dtype
     if bad:
@@ -645,7 +679,7 @@ def unit_raw_box(ctx, K):
                             "validity predicates; non-trivial = raw differs from the initial raw values")
     rng = ctx.rng
     P = Pending(ctx, u)
-    reps = 2 if ctx.quick else 25
+    reps = 2 if ctx.quick else 60
     skipped = {}
     for name, kind in K.items():
         for st in statics(rng, name, ctx.quick):
@@ -683,7 +717,7 @@ def unit_ctor_roundtrip(ctx):
                                    "weights, interval ends; magnitudes 1e-6..1e6): stored raw value vs model `_init`, unwrapped field vs the "
                                    "model's round trip and vs the argument; non-trivial = argument differs from the default 1")
     rng = ctx.rng
-    reps = 6 if ctx.quick else 120
+    reps = 6 if ctx.quick else 300
     items, reqs = [], []
 
     def add(cls, args, checks):
@@ -692,6 +726,12 @@ def unit_ctor_roundtrip(ctx):
             items.append((cls, args, label, A(obs), parse, floor, None if arg is None else A(arg), len(reqs), "rel"))
             reqs.append(req)
         u.count((cls, args), nontrivial=True, tag=cls)
+
+    def rejected(what, e):
+        ctx.violation(sig=f"ctor:{what.split(':')[0].split('(')[0].strip()}:rejects-valid", found_input=True, unit=u.name,
+                      what=f"constructor raised {type(e).__name__} on valid arguments (magnitudes 1e-6..1e6) -- {what}: {str(e)[:200]}",
+                      case=dict(unit="ctor-roundtrip", which=what), expected="accepted", observed=type(e).__name__,
+                      broken="C11: a constructed object reproduces its constructor arguments", reproducer="cd /verif && ./check C11 --replay <this file>")
 
     pos_classes = [("Affine", lambda l, v: B.Affine(l, v), lambda o: o.scale.arr, lambda o: W.unwrap(o).scale),
                    ("Scale", lambda l, v: B.Scale(v), lambda o: o.scale.arr, lambda o: W.unwrap(o).scale)]
@@ -704,90 +744,120 @@ def unit_ctor_roundtrip(ctx):
             n = int(rng.integers(1, 4))
             v = mags(rng, n)
             loc = rng.normal(0, 3, size=n)
-            o = mk(jnp.asarray(loc), jnp.asarray(v))
             h = hexlist(v)
-            add(cls, h, [("raw", raw(o), f"pos.init {h}", flist, 1.0, None), ("scale", val(o), f"pos.rt {h}", flist, 0.0, v)])
-        # StudentT: df and scale
-        n = int(rng.integers(1, 4))
-        df, sc = mags(rng, n), mags(rng, n)
-        o = D.StudentT(jnp.asarray(df), jnp.zeros(n), jnp.asarray(sc))
-        add("StudentT", hexlist(df) + "/" + hexlist(sc),
-            [("df.raw", o.base_dist.df.arr, f"pos.init {hexlist(df)}", flist, 1.0, None), ("df", o.df, f"pos.rt {hexlist(df)}", flist, 0.0, df),
-             ("scale", o.scale, f"pos.rt {hexlist(sc)}", flist, 0.0, sc)])
-        # Exponential(rate)
-        r = mags(rng, 1)
-        o = D.Exponential(jnp.asarray(r[0]))
-        add("Exponential", hexlist(r), [("raw", o.bijection.scale.arr, f"rate.init {fhex(r[0])}", lambda t: A(fparse(t)), 1.0, None)])
-        items.append(("Exponential", hexlist(r), "rate", A(o.rate), None, 0.0, A(r[0]), None, "rel"))
-        # Uniform(minval, maxval)
-        lo = rng.normal(0, 1, size=2) * 10 ** rng.uniform(-3, 3)
-        hi = lo + mags(rng, 2)
-        hi = np.where(hi > lo, hi, np.nextafter(lo, np.inf))
-        o = D.Uniform(jnp.asarray(lo), jnp.asarray(hi))
-        fl = np.maximum(1.0, np.maximum(np.abs(lo), np.abs(hi)))
-        add("Uniform", hexlist(lo) + "/" + hexlist(hi), [("maxval", o.maxval, f"uniform.maxval {hexlist(lo)} {hexlist(pos_init_np(hi - lo))}", flist, fl, hi)])
-        items.append(("Uniform", hexlist(lo), "minval", A(o.minval), None, 0.0, A(lo), None, "exact"))
-        # TriangularAffine(loc, arr, lower)
-        n = int(rng.integers(1, 5))
-        arr = rng.normal(0, 2, size=(n, n)) * 10 ** rng.uniform(-2, 2)
-        arr[np.arange(n), np.arange(n)] = mags(rng, n)
-        lower = bool(rng.integers(2))
-        o = B.TriangularAffine(jnp.zeros(n), jnp.asarray(arr), lower=lower)
-        exp = np.tril(arr) if lower else np.triu(arr)
-        add("TriangularAffine", (hexmat(arr), lower),
-            [("diag.raw", o.triangular.kwargs["diag"].arr, f"tri.init {hexmat(arr)}", flist, 1.0, None),
-             ("triangular", W.unwrap(o).triangular, f"tri.unwrap {int(lower)} {hexlist(pos_init_np(np.diag(arr)))} {hexmat(arr)}", fmat, 0.0, exp)])
-        # MultivariateNormal(loc, covariance): the model takes L = cholesky(cov) as given
-        n = int(rng.integers(1, 5))
-        Lm = np.tril(rng.normal(0, 1, size=(n, n)))
-        Lm[np.arange(n), np.arange(n)] = 10 ** rng.uniform(-2, 2, size=n)
-        Lm = Lm * 10 ** rng.uniform(-1, 1)
-        cov = Lm @ Lm.T
-        o = D.MultivariateNormal(jnp.zeros(n), jnp.asarray(cov))
-        Lc = np.linalg.cholesky(cov)
-        cm = float(np.max(np.abs(cov)))
-        add("MultivariateNormal", hexmat(cov),
-            [("covariance", o.covariance, f"tri.cov 1 {hexlist(pos_init_np(np.diag(Lc)))} {hexmat(Lc)}", fmat, max(1.0, cm), None)])
-        items.append(("MultivariateNormal", hexmat(cov), "covariance", A(o.covariance), None, 0.0, cov, None, ("abs", 1e3 * n * EPS * cm)))
-        # VmapMixture(dist, weights)
-        k = int(rng.integers(1, 7))
-        w = mags(rng, k) if rng.random() < 0.5 else rng.uniform(0.1, 2, size=k)
-        o = D.VmapMixture(eqx.filter_vmap(D.Normal)(jnp.arange(float(k))), jnp.asarray(w))
-        lw = A(W.unwrap(o).log_normalized_weights)
-        add("VmapMixture", hexlist(w), [("raw", o.log_normalized_weights.args[0], f"mix.init {hexlist(w)}", flist, 1.0, None),
-                                        ("logw", lw, f"mix.logw {hexlist(np.log(w))}", flist, 1.0, np.log(w / w.sum()))])
-        # RationalQuadraticSpline: interval ends, identity initialisation
-        K_ = int(rng.integers(1, 12))
-        lo_ = float(rng.normal(0, 3))
-        hi_ = lo_ + float(10 ** rng.uniform(-2, 3))
-        md, adj = float(10 ** rng.uniform(-5, -0.3)), float(rng.choice([0.0, 1e-2, 1.0, 10 ** rng.uniform(-3, 1)]))
-        scalar = rng.random() < 0.4
-        if scalar:
-            hi_ = abs(hi_) + 0.1
-            lo_ = -hi_
-        o = B.RationalQuadraticSpline(knots=K_, interval=hi_ if scalar else (lo_, hi_), min_derivative=md, softmax_adjust=adj)
-        uo = W.unwrap(o)
-        z = hexlist(np.zeros(K_))
-        add("RationalQuadraticSpline", (K_, lo_, hi_, md, adj),
-            [("x_pos", uo.x_pos, f"knots {fhex(lo_)} {fhex(hi_)} {fhex(adj)} {z}", flist, max(1.0, abs(lo_), abs(hi_)), None),
-             ("derivatives.raw", o.derivatives.args[0], f"deriv.init {fhex(md)}", lambda t, K_=K_: np.full(K_ + 2, fparse(t)), 1.0, None),
-             ("derivatives", uo.derivatives, f"derivs {fhex(md)} {hexlist(A(o.derivatives.args[0]))}", flist, 0.0, np.ones(K_ + 2))])
-        xp = A(uo.x_pos)
-        items.append(("RationalQuadraticSpline", (K_, lo_, hi_), "ends", xp[[0, -1]], None, 0.0, A([lo_, hi_]), None, "exact"))
-        # _affine_with_min_scale(ms): initial scale 1
-        ms = float(rng.choice([0.01, 10 ** rng.uniform(-5, -0.05)]))
-        o = s["ams"](ms)
-        add("_affine_with_min_scale", fhex(ms), [("raw", o.scale.arr, f"minscale.init {fhex(ms)}", lambda t: A(fparse(t)), 1.0, None),
-                                                  ("scale", W.unwrap(o).scale, f"minscale.unwrap {fhex(ms)} {fhex(float(o.scale.arr))}", lambda t: flist(t).reshape(()), 0.0, 1.0)])
-        # WeightNormalization(weight): scale parameter starts at 1/||row|| (as coded)
-        r_, c_ = int(rng.integers(1, 5)), int(rng.integers(1, 5))
-        wt = rng.normal(0, 1, size=(r_, c_)) * 10 ** rng.uniform(-3, 3)
-        import warnings
-        with warnings.catch_warnings():
-            warnings.simplefilter("ignore")
-            o = W.WeightNormalization(jnp.asarray(wt))
-        add("WeightNormalization", hexmat(wt), [("scale.raw", A(o.scale.arr).ravel(), f"wn.init {hexmat(wt)}", flist, 1.0, None),
-                                                ("unwrap", W.unwrap(o), f"wn.unwrap {hexlist(A(o.scale.arr).ravel())} {hexmat(wt)}", fmat, 0.0, None)])
+            try:
+                o = mk(jnp.asarray(loc), jnp.asarray(v))
+                add(cls, h, [("raw", raw(o), f"pos.init {h}", flist, 1.0, None), ("scale", val(o), f"pos.rt {h}", flist, 0.0, v)])
+            except (RuntimeError, ValueError, ZeroDivisionError) as e:
+                rejected(f"{cls}: scale = {v.tolist()}", e)
+        try:
+            # StudentT: df and scale
+            n = int(rng.integers(1, 4))
+            df, sc = mags(rng, n), mags(rng, n)
+            o = D.StudentT(jnp.asarray(df), jnp.zeros(n), jnp.asarray(sc))
+            add("StudentT", hexlist(df) + "/" + hexlist(sc),
+                [("df.raw", o.base_dist.df.arr, f"pos.init {hexlist(df)}", flist, 1.0, None), ("df", o.df, f"pos.rt {hexlist(df)}", flist, 0.0, df),
+                 ("scale", o.scale, f"pos.rt {hexlist(sc)}", flist, 0.0, sc)])
+        except (RuntimeError, ValueError, ZeroDivisionError) as e:
+            rejected('StudentT: df and scale', e)
+        try:
+            # Exponential(rate)
+            r = mags(rng, 1)
+            o = D.Exponential(jnp.asarray(r[0]))
+            add("Exponential", hexlist(r), [("raw", o.bijection.scale.arr, f"rate.init {fhex(r[0])}", lambda t: A(fparse(t)), 1.0, None)])
+            items.append(("Exponential", hexlist(r), "rate", A(o.rate), None, 0.0, A(r[0]), None, "rel"))
+        except (RuntimeError, ValueError, ZeroDivisionError) as e:
+            rejected('Exponential(rate)', e)
+        try:
+            # Uniform(minval, maxval)
+            lo = rng.normal(0, 1, size=2) * 10 ** rng.uniform(-3, 3)
+            hi = lo + mags(rng, 2)
+            hi = np.where(hi > lo, hi, np.nextafter(lo, np.inf))
+            o = D.Uniform(jnp.asarray(lo), jnp.asarray(hi))
+            fl = np.maximum(1.0, np.maximum(np.abs(lo), np.abs(hi)))
+            add("Uniform", hexlist(lo) + "/" + hexlist(hi), [("maxval", o.maxval, f"uniform.maxval {hexlist(lo)} {hexlist(pos_init_np(hi - lo))}", flist, fl, hi)])
+            items.append(("Uniform", hexlist(lo), "minval", A(o.minval), None, 0.0, A(lo), None, "exact"))
+        except (RuntimeError, ValueError, ZeroDivisionError) as e:
+            rejected('Uniform(minval, maxval)', e)
+        try:
+            # TriangularAffine(loc, arr, lower)
+            n = int(rng.integers(1, 5))
+            arr = rng.normal(0, 2, size=(n, n)) * 10 ** rng.uniform(-2, 2)
+            arr[np.arange(n), np.arange(n)] = mags(rng, n)
+            lower = bool(rng.integers(2))
+            o = B.TriangularAffine(jnp.zeros(n), jnp.asarray(arr), lower=lower)
+            exp = np.tril(arr) if lower else np.triu(arr)
+            add("TriangularAffine", (hexmat(arr), lower),
+                [("diag.raw", o.triangular.kwargs["diag"].arr, f"tri.init {hexmat(arr)}", flist, 1.0, None),
+                 ("triangular", W.unwrap(o).triangular, f"tri.unwrap {int(lower)} {hexlist(pos_init_np(np.diag(arr)))} {hexmat(arr)}", fmat, 0.0, exp)])
+        except (RuntimeError, ValueError, ZeroDivisionError) as e:
+            rejected('TriangularAffine(loc, arr, lower)', e)
+        try:
+            # MultivariateNormal(loc, covariance): the model takes L = cholesky(cov) as given
+            n = int(rng.integers(1, 5))
+            Lm = np.tril(rng.normal(0, 1, size=(n, n)))
+            Lm[np.arange(n), np.arange(n)] = 10 ** rng.uniform(-2, 2, size=n)
+            Lm = Lm * 10 ** rng.uniform(-1, 1)
+            cov = Lm @ Lm.T
+            o = D.MultivariateNormal(jnp.zeros(n), jnp.asarray(cov))
+            Lc = np.linalg.cholesky(cov)
+            cm = float(np.max(np.abs(cov)))
+            add("MultivariateNormal", hexmat(cov),
+                [("covariance", o.covariance, f"tri.cov 1 {hexlist(pos_init_np(np.diag(Lc)))} {hexmat(Lc)}", fmat, max(1.0, cm), None)])
+            items.append(("MultivariateNormal", hexmat(cov), "covariance", A(o.covariance), None, 0.0, cov, None, ("abs", 1e3 * n * EPS * cm)))
+        except (RuntimeError, ValueError, ZeroDivisionError) as e:
+            rejected('MultivariateNormal(loc, covariance): the model takes L = cholesky(cov) as given', e)
+        try:
+            # VmapMixture(dist, weights)
+            k = int(rng.integers(1, 7))
+            w = mags(rng, k) if rng.random() < 0.5 else rng.uniform(0.1, 2, size=k)
+            o = D.VmapMixture(eqx.filter_vmap(D.Normal)(jnp.arange(float(k))), jnp.asarray(w))
+            lw = A(W.unwrap(o).log_normalized_weights)
+            add("VmapMixture", hexlist(w), [("raw", o.log_normalized_weights.args[0], f"mix.init {hexlist(w)}", flist, 1.0, None),
+                                            ("logw", lw, f"mix.logw {hexlist(np.log(w))}", flist, 1.0, np.log(w / w.sum()))])
+        except (RuntimeError, ValueError, ZeroDivisionError) as e:
+            rejected('VmapMixture(dist, weights)', e)
+        try:
+            # RationalQuadraticSpline: interval ends, identity initialisation
+            K_ = int(rng.integers(1, 12))
+            lo_ = float(rng.normal(0, 3))
+            hi_ = lo_ + float(10 ** rng.uniform(-2, 3))
+            md, adj = float(10 ** rng.uniform(-5, -0.3)), float(rng.choice([0.0, 1e-2, 1.0, 10 ** rng.uniform(-3, 1)]))
+            scalar = rng.random() < 0.4
+            if scalar:
+                hi_ = abs(hi_) + 0.1
+                lo_ = -hi_
+            o = B.RationalQuadraticSpline(knots=K_, interval=hi_ if scalar else (lo_, hi_), min_derivative=md, softmax_adjust=adj)
+            uo = W.unwrap(o)
+            z = hexlist(np.zeros(K_))
+            add("RationalQuadraticSpline", (K_, lo_, hi_, md, adj),
+                [("x_pos", uo.x_pos, f"knots {fhex(lo_)} {fhex(hi_)} {fhex(adj)} {z}", flist, max(1.0, abs(lo_), abs(hi_)), None),
+                 ("derivatives.raw", o.derivatives.args[0], f"deriv.init {fhex(md)}", lambda t, K_=K_: np.full(K_ + 2, fparse(t)), 1.0, None),
+                 ("derivatives", uo.derivatives, f"derivs {fhex(md)} {hexlist(A(o.derivatives.args[0]))}", flist, 0.0, np.ones(K_ + 2))])
+            xp = A(uo.x_pos)
+            items.append(("RationalQuadraticSpline", (K_, lo_, hi_), "ends", xp[[0, -1]], None, 0.0, A([lo_, hi_]), None, "exact"))
+        except (RuntimeError, ValueError, ZeroDivisionError) as e:
+            rejected('RationalQuadraticSpline: interval ends, identity initialisation', e)
+        try:
+            # _affine_with_min_scale(ms): initial scale 1
+            ms = float(rng.choice([0.01, 10 ** rng.uniform(-5, -0.05)]))
+            o = s["ams"](ms)
+            add("_affine_with_min_scale", fhex(ms), [("raw", o.scale.arr, f"minscale.init {fhex(ms)}", lambda t: A(fparse(t)), 1.0, None),
+                                                      ("scale", W.unwrap(o).scale, f"minscale.unwrap {fhex(ms)} {fhex(float(o.scale.arr))}", lambda t: flist(t).reshape(()), 0.0, 1.0)])
+        except (RuntimeError, ValueError, ZeroDivisionError) as e:
+            rejected('_affine_with_min_scale(ms): initial scale 1', e)
+        try:
+            # WeightNormalization(weight): scale parameter starts at 1/||row|| (as coded)
+            r_, c_ = int(rng.integers(1, 5)), int(rng.integers(1, 5))
+            wt = rng.normal(0, 1, size=(r_, c_)) * 10 ** rng.uniform(-3, 3)
+            import warnings
+            with warnings.catch_warnings():
+                warnings.simplefilter("ignore")
+                o = W.WeightNormalization(jnp.asarray(wt))
+            add("WeightNormalization", hexmat(wt), [("scale.raw", A(o.scale.arr).ravel(), f"wn.init {hexmat(wt)}", flist, 1.0, None),
+                                                    ("unwrap", W.unwrap(o), f"wn.unwrap {hexlist(A(o.scale.arr).ravel())} {hexmat(wt)}", fmat, 0.0, None)])
+        except (RuntimeError, ValueError, ZeroDivisionError) as e:
+            rejected('WeightNormalization(weight): scale parameter starts at 1/||row|| (as coded)', e)
     out = ctx.model(reqs)
     for cls, args, label, obs, parse, floor, arg, ri, mode in items:
         pred = None
@@ -1099,7 +1169,7 @@ def unit_float32(ctx, K):
         for st in (sts[:3] if ctx.quick else sts):
             obj0 = kind.build(st)
             raw0 = kind.raws(obj0)
-            for mode in (["alt", "uniform", "edge"] if ctx.quick else MODES * 4):
+            for mode in (["alt", "uniform", "edge"] if ctx.quick else MODES * 10):
                 raws = {n: box_values(rng, v.shape, mode).astype(np.float32).astype(np.float64) for n, v in raw0.items()}
                 if kind.skip(st, raws):
                     continue
@@ -1111,14 +1181,102 @@ def unit_float32(ctx, K):
                 report(ctx, u, kind, st, raws, obs, f"tree_at({mode}) float32", [], errs, dtype="float32")
 
 
+# ------------------------------------------------------------------ WeightNormalization as used by the flows
+def unit_wn_in_flows(ctx):
+    s = S()
+    jnp, W, eqx, jax, jr, D = s["jnp"], s["W"], s["eqx"], s["jax"], s["jr"], s["D"]
+    import warnings
+    from flowjax.flows import block_neural_autoregressive_flow, triangular_spline_flow
+
+    u = ctx.unit("weightnorm-in-flows", "block_neural_autoregressive_flow / triangular_spline_flow: every trainable leaf overwritten with box values; "
+                                        "every WeightNormalization node (vmapped over layers, weight wrapped in Where/softplus): row norms == unwrapped "
+                                        "scale (oracle) and unwrap == model wn.unwrap of the unwrapped inner weight; every vmapped RationalQuadraticSpline node: knots/"
+                                        "derivatives vs the model + validity predicates; non-trivial = all")
+    rng = ctx.rng
+    with warnings.catch_warnings():
+        warnings.simplefilter("ignore")
+        flows = [("BNAF", block_neural_autoregressive_flow(jr.PRNGKey(0), base_dist=D.Normal(jnp.zeros(3)), flow_layers=2, nn_depth=1, nn_block_dim=2)),
+                 ("triangular_spline_flow", triangular_spline_flow(jr.PRNGKey(1), base_dist=D.Normal(jnp.zeros(3)), flow_layers=2, knots=4))]
+    items, reqs = [], []
+    KS, PS = SplineKind(), Pending(ctx, u)
+    isw = lambda l: isinstance(l, W.WeightNormalization)  # noqa: E731
+    for fname, f in flows:
+        params, static = eqx.partition(f, eqx.is_inexact_array, is_leaf=lambda l: isinstance(l, W.NonTrainable))
+        for mode in (["const", "alt", "uniform", "normal"] if ctx.quick else MODES * 5):
+            p2 = jax.tree_util.tree_map(lambda l: jnp.asarray(box_values(rng, l.shape, mode)), params)
+            g = eqx.combine(p2, static)
+            for ni, n in enumerate(x for x in jax.tree_util.tree_leaves(g, is_leaf=isw) if isw(x)):
+                w, sc, inner, raw = A(W.unwrap(n)), A(W.unwrap(n.scale)), A(W.unwrap(n.weight)), A(n.scale.arr)
+                for b in range(w.shape[0]):
+                    if np.any(~np.any(inner[b] != 0, axis=1)):
+                        note_once(ctx, f"weightnorm-in-flows: skipped a case with an all-zero inner row ({fname}, mode {mode})")
+                        continue
+                    u.count((fname, mode, ni, b, [fhex(x) for x in raw[b].ravel()]), nontrivial=True, tag=f"{fname}/{mode}")
+                    nr = np.sqrt(np.sum(w[b] * w[b], axis=1))
+                    ok = np.all(np.isfinite(w[b])) and np.all(sc[b] > 0) and np.all(np.abs(nr - sc[b].ravel()) <= 1e3 * EPS * w.shape[-1] * sc[b].ravel())
+                    items.append((fname, mode, ni, b, w[b], bool(ok), raw[b], inner[b]))
+                    reqs.append(f"wn.unwrap {hexlist(raw[b].ravel())} {hexmat(inner[b])}")
+            # the vmapped splines of the same flows
+            issp = lambda l: isinstance(l, s["B"].RationalQuadraticSpline)  # noqa: E731
+            for n in (x for x in jax.tree_util.tree_leaves(g, is_leaf=issp) if issp(x)):
+                un = W.unwrap(n)
+                rx, ry, rd = A(n.x_pos.args[0]), A(n.y_pos.args[0]), A(n.derivatives.args[0])
+                ox, oy, od = A(un.x_pos), A(un.y_pos), A(un.derivatives)
+                st = dict(K=int(n.knots), lo=float(n.interval[0]), hi=float(n.interval[1]), md=float(n.min_derivative), adj=float(n.softmax_adjust))
+                for idx in np.ndindex(rx.shape[:-1]):
+                    raws = dict(x=rx[idx], y=ry[idx], d=rd[idx])
+                    PS.add(KS, st, raws, dict(x_pos=ox[idx], y_pos=oy[idx], derivatives=od[idx]), f"{fname}: all trainable leaves overwritten ({mode}), vmapped spline {idx}")
+                    u.count((fname, mode, "spline", idx, [fhex(x) for x in rx[idx]]), nontrivial=True, tag=f"{fname}/spline/{mode}")
+    PS.resolve()
+    out = ctx.model(reqs)
+    for (fname, mode, ni, b, wb, ok, raw, inner), req, o in zip(items, reqs, out):
+        agree = close(wb, fmat(o), 0.0)
+        if not ok or not agree:
+            u.disagreements += not agree
+            ctx.violation(sig=f"WeightNormalization-in-{fname}:{'oracle:row-norm' if not ok else 'model-mismatch'}", found_input=not ok, unit=u.name,
+                          what=f"{fname}: WeightNormalization node {ni} (layer {b}) after overwriting the trainable leaves ({mode}): "
+                               + ("row norm != norm parameter / non-finite" if not ok else "unwrap differs from the model"),
+                          case=dict(unit="weightnorm-in-flows", flow=fname, node=ni, layer=b, raw_scale=[fhex(x) for x in raw.ravel()], inner=hexmat(inner), request=req),
+                          expected=o[:2000], observed=hexmat(wb), broken="correspondence weightnorm-in-flows / C11_weightnorm_row_norm",
+                          reproducer="cd /verif && ./check C11 --replay <this file>")
+
+
+def fingerprints(ctx):
+    """hash of the source text of every anchored function (DESIGN 1.4): recorded, never an alarm"""
+    import hashlib
+    import inspect
+
+    s = S()
+    B, D, W = s["B"], s["D"], s["W"]
+    from flowjax.bijections import rational_quadratic_spline as rqs
+
+    objs = {"SoftPlus": B.SoftPlus, "Affine.__init__": B.Affine.__init__, "Scale.__init__": B.Scale.__init__,
+            "TriangularAffine.__init__": B.TriangularAffine.__init__, "_real_to_increasing_on_interval": rqs._real_to_increasing_on_interval,
+            "RationalQuadraticSpline.__init__": B.RationalQuadraticSpline.__init__, "_UnconditionalPlanar.get_act_scale": s["UP"].get_act_scale,
+            "_UnconditionalPlanar.__init__": s["UP"].__init__, "Permute.__init__": B.Permute.__init__, "BijectionReparam": W.BijectionReparam,
+            "_apply_inverse_and_check_valid": W._apply_inverse_and_check_valid, "WeightNormalization": W.WeightNormalization,
+            "VmapMixture.__init__": D.VmapMixture.__init__, "_StandardStudentT.__init__": D._StandardStudentT.__init__,
+            "Uniform.__init__": D.Uniform.__init__, "Exponential": D.Exponential, "MultivariateNormal": D.MultivariateNormal,
+            "_affine_with_min_scale": s["ams"]}
+    fp = {}
+    for k, o in objs.items():
+        try:
+            fp[k] = hashlib.sha1(inspect.getsource(o).encode()).hexdigest()[:10]
+        except Exception:  # noqa: BLE001
+            fp[k] = "unavailable"
+    ctx.notes.append("source fingerprints of the anchored functions: " + ", ".join(f"{k}={v}" for k, v in fp.items()))
+
+
 def run(ctx):
     K = kinds()
+    fingerprints(ctx)
     unit_ctor_roundtrip(ctx)
     unit_ctor_rejects(ctx)
     unit_hypotheses(ctx)
     unit_raw_box(ctx, K)
     unit_trained(ctx, K)
     unit_float32(ctx, K)
+    unit_wn_in_flows(ctx)
     ctx.assumptions += [
         "theorems are over the reals; float rounding/underflow is not modelled (partial): in floats strict inequalities are asserted only where "
         "the exact margin exceeds the rounding noise (softplus(raw) vs ulp(min), smallest bin width vs ulp of the knot positions)",
@@ -1171,5 +1329,22 @@ def replay(ctx, rep):
         for h in same[:3]:
             print("  still fails:", h["what"][:300])
         return not same
+    if unit == "weightnorm-in-flows":
+        wb = fmat(rep["observed"])
+        o = ctx.model([c["request"]])[0]
+        inner = fmat(c["inner"])
+        # recompute on the current tree: a bare WeightNormalization with this inner weight and raw scale
+        s = S()
+        import warnings
+        with warnings.catch_warnings():
+            warnings.simplefilter("ignore")
+            wn = s["W"].WeightNormalization(s["jnp"].asarray(inner))
+        wn = s["eqx"].tree_at(lambda t: t.scale.arr, wn, s["jnp"].asarray(np.array([fparse(x) for x in c["raw_scale"]]).reshape(-1, 1)))
+        now = A(s["W"].unwrap(wn))
+        sc = A(s["W"].unwrap(wn.scale)).ravel()
+        nr = np.sqrt(np.sum(now * now, axis=1))
+        ok = bool(np.all(np.abs(nr - sc) <= 1e3 * EPS * now.shape[1] * sc)) and close(now, fmat(o), 0.0)
+        print("row norms", nr.tolist(), "scale", sc.tolist(), "agrees with model:", close(now, fmat(o), 0.0))
+        return ok
     print("obligation replay: rebuild and re-check", c)
     return False
